@@ -16,7 +16,8 @@
    Ranges are explicit in every statement: durations 0 <= d <= MaxDur = 2^63-1 ns, clock rates
    0 <= rate < 2^32, 32-bit counters. *)
 From IV Require Import Base.Word Base.F64 Model.SenderStream Model.ReceiverStream Proofs.NtpFloatProofs Proofs.ReportFloatProofs.
-From Coq Require Import ZArith Reals.
+From Coq Require Import ZArith Reals List.
+From Flocq Require Import Core.Core.
 Open Scope Z_scope.
 
 (* ---------- (a) fraction lost ---------- *)
@@ -99,3 +100,53 @@ Example C06_dlsr_kernel_nonvacuous :
   dlsr_kernel 1000000000 = 65536 /\ dlsr_kernel 2500000000 = 163840 /\ dlsr_kernel 15259 = 1.
 Proof. exact dlsr_kernel_nonvacuous. Qed.
 Print Assumptions C06_dlsr_kernel_nonvacuous.
+
+(* ---------- (c) jitter step ---------- *)
+(* [FR f] is the real value of the finite primitive float f (Flocq's B2R (Prim2B f)), [fin f] says f is
+   finite.  For every finite accumulator 0 <= J <= 2^64, every elapsed time 0 <= d <= MaxDur, clock
+   rate below 2^32 with d*rate/10^9 < 2^62 and every signed 32-bit timestamp difference, the executable
+   step  J' = J + (|d.Seconds()*rate - float64(sdiff)| - J)/16  (six binary64 operations after Seconds())
+   is finite, NON-NEGATIVE, again at most 2^64 (so the hypotheses are an invariant), and within
+       2^-52 * (d*rate/10^9 + |sdiff| + J)  +  2^-1072
+   of the exact rational RFC 3550 step on the exact transit difference.  (The error is relative to the
+   magnitudes of the operands, not to |D|: D is a difference and may cancel.  2^-1072 = 4 * the smallest
+   positive binary64 number covers underflow in (|D| - J)/16.)
+   Not covered: d < 0 (arrival clock stepping backwards). *)
+Theorem C06_jitter_step_nonneg_bounded_accurate : forall j d rate sdiff,
+  0 <= d <= MaxDur -> 0 <= rate < 4294967296 ->
+  d * rate / 1000000000 < 4611686018427387904 -> -2147483648 <= sdiff <= 2147483647 ->
+  fin j -> (0 <= FR j <= 18446744073709551616)%R ->
+  let J' := jitter_kernel j d rate sdiff in
+  fin J' /\ (0 <= FR J' <= 18446744073709551616)%R /\
+  (Rabs (FR J' - (FR j + (Rabs (IZR d * IZR rate / 1000000000 - IZR sdiff) - FR j) / 16))
+    <= / 4503599627370496 * (IZR d * IZR rate / 1000000000 + Rabs (IZR sdiff) + FR j) + bpow radix2 (-1072))%R.
+Proof. exact jitter_kernel_step. Qed.
+Print Assumptions C06_jitter_step_nonneg_bounded_accurate.
+
+(* the executable step IS the real-number model with one binary64 rounding per float operation *)
+Theorem C06_jitter_kernel_is_real_model : forall j d rate sdiff,
+  jit_range d rate sdiff -> fin j -> (0 <= FR j <= 18446744073709551616)%R ->
+  fin (jitter_kernel j d rate sdiff) /\ FR (jitter_kernel j d rate sdiff) = jitR (FR j) d rate sdiff.
+Proof. exact jitter_link. Qed.
+Print Assumptions C06_jitter_kernel_is_real_model.
+
+(* along every sequence of in-range steps from the initial accumulator 0.0 the jitter stays
+   finite, non-negative and at most 2^64 *)
+Theorem C06_jitter_accumulator_invariant : forall l, Forall jit_step_ok l ->
+  fin (jitter_fold jitter_zero l) /\ (0 <= FR (jitter_fold jitter_zero l) <= 18446744073709551616)%R.
+Proof. exact jitter_fold_invariant. Qed.
+Print Assumptions C06_jitter_accumulator_invariant.
+
+(* Jitter field: uint32(stream.jitter) is the floor of the accumulator, modulo 2^32 *)
+Theorem C06_jitter_out_is_floor : forall j, fin j -> (0 <= FR j < 9223372036854775808)%R ->
+  jitter_out j = Zfloor (FR j) mod 4294967296.
+Proof. exact jitter_out_floor. Qed.
+Print Assumptions C06_jitter_out_is_floor.
+
+(* non-vacuity: 20 ms at 90 kHz against a timestamp step of 160: |D| = 1640, J = 102.5;
+   then 21 ms against 1800: |D| = 90, J = 101.71875 *)
+Example C06_jitter_kernel_nonvacuous :
+  jitter_out (jitter_kernel jitter_zero 20000000 90000 160) = 102 /\
+  jitter_out (jitter_kernel (jitter_kernel jitter_zero 20000000 90000 160) 21000000 90000 1800) = 101.
+Proof. exact jitter_kernel_nonvacuous. Qed.
+Print Assumptions C06_jitter_kernel_nonvacuous.
